@@ -67,6 +67,7 @@ func (m *MTProto) sendPacket(request tl.Object, expectedTypes ...reflect.Type) (
 	if err != nil {
 		return nil, errors.Wrap(err, "sending request")
 	}
+	verifPoint("send.written", msgID)
 
 	if m.encrypted {
 		// since we sending this message, we are incrementing the seqno BUT ONLY when we
